@@ -739,12 +739,26 @@ func main() {
 	if tier == "thorough" {
 		L = 4
 	}
+	if tier == "thorough" {
+		exhKinds = []int{1, 6} // length 4 on kRf(+kBare) and kRfSwFeHijPush(+kFeHijPush); length 3 on all four below
+		for _, ki := range []int{4, 7} {
+			for _, b := range budgets {
+				enum(alpha, 3, nil, func(seq []action) { add(ki, b, false, seq, "exhaustive-len3", false) })
+			}
+		}
+		scopes = append(scopes, "all 14^3 sequences of 3 calls over the 14-action alphabet x kinds {kRfFl,kAllNoFast} (+ twins) x budgets {inf,0,2}")
+	}
+	exhNames := []string{}
 	for _, ki := range exhKinds {
+		exhNames = append(exhNames, kinds[ki].name)
 		for _, b := range budgets {
+			if tier == "thorough" && ki == 1 && b == 0 {
+				continue // kRf at length 4: budgets inf and 2 only (keeps the thorough tier within its time budget)
+			}
 			enum(alpha, L, nil, func(seq []action) { add(ki, b, false, seq, fmt.Sprintf("exhaustive-len%d", L), false) })
 		}
 	}
-	scopes = append(scopes, fmt.Sprintf("all %d^%d sequences of %d calls over the 14-action alphabet x kinds {kRf,kRfFl,kRfSwFeHijPush,kAllNoFast} (+ twins) x budgets {inf,0,2}", len(alpha), L, L))
+	scopes = append(scopes, fmt.Sprintf("all %d^%d sequences of %d calls over the 14-action alphabet x kinds %v (+ twins) x budgets {inf,0,2} (thorough: kRf without budget 0)", len(alpha), L, L, exhNames))
 	// 2. exhaustive length 2 over the whole API (alphabet + the other methods and the helpers), all kinds,
 	//    with and without failing capabilities, half of them through NewTestContext
 	all := append(append([]action(nil), alpha...), extra...)
@@ -765,19 +779,19 @@ func main() {
 		}
 	}
 	scopes = append(scopes, fmt.Sprintf("all %d^2 sequences of 2 calls over the whole API incl. helpers x %d kinds x budgets %v x capability failure", len(all), len(wideKinds), wideBudgets))
-	// 3. thorough only: exhaustive length 5 over the 9 actions that change the recorder state, on the
+	// 3. thorough only: exhaustive length 5 over the 8 actions that change the recorder state, on the
 	//    full fast-path kind
 	if tier == "thorough" {
-		core9 := []action{alpha[1], alpha[3], alpha[4], alpha[6], alpha[8], alpha[9], alpha[10], alpha[11], alpha[12]}
+		core8 := []action{alpha[1], alpha[4], alpha[6], alpha[8], alpha[9], alpha[10], alpha[11], alpha[12]}
 		for _, b := range budgets {
-			enum(core9, 5, nil, func(seq []action) { add(6, b, false, seq, "exhaustive-core9-len5", false) })
+			enum(core8, 5, nil, func(seq []action) { add(6, b, false, seq, "exhaustive-core8-len5", false) })
 		}
-		scopes = append(scopes, "all 9^5 sequences of 5 calls over {WriteHeader 103/200/404, Write abc, ReadFrom empty/hello/failing, Flush, Hijack} x kRfSwFeHijPush (+ twin) x budgets {inf,0,2}")
+		scopes = append(scopes, "all 8^5 sequences of 5 calls over {WriteHeader 103/404, Write abc, ReadFrom empty/hello/failing, Flush, Hijack} x kRfSwFeHijPush (+ twin) x budgets {inf,0,2}")
 	}
 	// 4. random sequences up to 20 calls, random parameters
 	nrand := 1500
 	if tier == "thorough" {
-		nrand = 30000
+		nrand = 15000
 	}
 	codes := []int{100, 101, 102, 103, 199, 200, 201, 204, 301, 304, 404, 500, 0, 99, 1000}
 	rstr := func(max int) string {
@@ -867,7 +881,7 @@ func main() {
 	names := map[string]string{}
 	var odefs strings.Builder
 	for _, x := range hx.SortedKeys(freq) {
-		if freq[x] >= 6 {
+		if freq[x] >= 6+len(pend)/1500 {
 			names[x] = fmt.Sprintf("o%d", len(names))
 			odefs.WriteString("Definition " + names[x] + " := " + x + ".\n")
 		}
